@@ -32,6 +32,8 @@ Definition writes_s (s : sstmt) : list nat :=
   | SSwap x _ y _ => [x; y]
   | SOpMod x _ _ _ y _ => [x; y]
   | SOpDef x _ _ _ _ => [x]
+  | SEveryOp x _ _ _ => [x]
+  | SAndOp ts _ _ => map fst ts
   end.
 Definition writes (s : stmt) : list nat :=
   match s with
@@ -50,6 +52,23 @@ Lemma assign_to_frame sg every x p w y : x <> y -> nth_error (fst (assign_to sg 
 Proof.
   intro N. unfold assign_to. destruct (nth_error sg x); simpl; auto.
   destruct (v_set every p (Some w) v). simpl. apply nth_error_set_var_neq; auto.
+Qed.
+
+Lemma and_loop_frame f w l : forall sg y, ~ In y (map (fun t => fst (fst t)) l) ->
+  nth_error (fst (and_loop f w sg l)) y = nth_error sg y.
+Proof.
+  induction l as [|[[x p] old] tl IH]; intros sg y N; simpl in *; auto.
+  destruct (nth_error sg x); simpl; auto.
+  destruct (v_opassign_old p f old w v) as [v' ok]. destruct ok; simpl.
+  - rewrite IH; [|tauto]. apply nth_error_set_var_neq. tauto.
+  - apply nth_error_set_var_neq. tauto.
+Qed.
+
+Lemma combine_targets_incl (ts : list (nat * path)) (olds : list val) y :
+  In y (map (fun t => fst (fst t)) (combine ts olds)) -> In y (map fst ts).
+Proof.
+  intro H. apply in_map_iff in H. destruct H as [[[x p] o] [E H]]. simpl in E. subst.
+  apply in_combine_l in H. apply in_map_iff. exists (y, p). auto.
 Qed.
 
 Lemma exec_s_frame sg s y : ~ In y (writes_s s) -> nth_error (fst (exec_s sg s)) y = nth_error sg y.
@@ -84,6 +103,10 @@ Proof.
     rewrite nth_error_set_var_neq; [auto | tauto].
   - destruct (nth_error sg x); simpl; auto. destruct (v_get_wd v p d); simpl; auto. destruct (eval sg e); simpl; auto.
     destruct (v_opassign_old p f v0 v1 v) as [v' ok']. simpl. apply nth_error_set_var_neq. tauto.
+  - destruct (eval sg e); simpl; auto. destruct (nth_error sg x); simpl; auto.
+    destruct (v_mevery p (every_leaf f v) v0) as [v' r]. destruct r; simpl; auto. apply nth_error_set_var_neq. tauto.
+  - destruct (read_all sg ts) as [olds|]; simpl; auto. destruct (eval sg e); simpl; auto.
+    apply and_loop_frame. intro H. apply N. eapply combine_targets_incl; eauto.
 Qed.
 
 Lemma exec_list_frame body : forall sg y, ~ In y (flat_map writes_s body) ->
@@ -164,6 +187,14 @@ Lemma length_assign_to sg every x p w : length (fst (assign_to sg every x p w)) 
 Proof.
   unfold assign_to. destruct (nth_error sg x); simpl; auto. destruct (v_set every p (Some w) v). simpl. apply length_set_var.
 Qed.
+Lemma length_and_loop f w l : forall sg, length (fst (and_loop f w sg l)) = length sg.
+Proof.
+  induction l as [|[[x p] old] tl IH]; intros sg; simpl; auto.
+  destruct (nth_error sg x); simpl; auto.
+  destruct (v_opassign_old p f old w v) as [v' ok]. destruct ok; simpl.
+  - rewrite IH. apply length_set_var.
+  - apply length_set_var.
+Qed.
 Lemma length_exec_s sg s : length (fst (exec_s sg s)) = length sg.
 Proof.
   destruct s; simpl.
@@ -193,6 +224,9 @@ Proof.
     rewrite !length_set_var. reflexivity.
   - destruct (nth_error sg x); simpl; auto. destruct (v_get_wd v p d); simpl; auto. destruct (eval sg e); simpl; auto.
     destruct (v_opassign_old p f v0 v1 v) as [v' ok']. simpl. apply length_set_var.
+  - destruct (eval sg e); simpl; auto. destruct (nth_error sg x); simpl; auto.
+    destruct (v_mevery p (every_leaf f v) v0) as [v' r]. destruct r; simpl; auto. apply length_set_var.
+  - destruct (read_all sg ts) as [olds|]; simpl; auto. destruct (eval sg e); simpl; auto. apply length_and_loop.
 Qed.
 Lemma length_exec_list body : forall sg, length (fst (exec_list sg body)) = length sg.
 Proof.
